@@ -1,15 +1,65 @@
-(* Props/C14.v -- property C14 (provisional instance; the general theorems are being added) *)
-From Coq Require Import ZArith NArith List.
-From RP Require Import Base.Bits Model.Codec Model.Showdown Model.Game Spec.SpecNLHE Spec.SpecGameInv.
+(* Props/C14.v -- card bookkeeping of the betting engine (the card part of C14).
+   C14_cards_reachable as asked (cards_inv after ANY action list) is FALSE in the model:
+   `Draw (h : N)` is unbounded, is_allowed only inspects the low 64 bits of h
+   (C14_cards_reachable_false).  Proved instead:
+     - C14_cards_reachable_partial : cards_inv for every history whose drawn sets are u64 values
+       (reachable64, Spec/SpecSettle.v) -- the only histories the Rust engine can see;
+     - C14_cards_any_reachable : for EVERY history the mask-independent part (cards_inv_any);
+     - C14_draw_fresh : at full strength. *)
+From Coq Require Import ZArith NArith List Bool.
+From RP Require Import Base.Bits Gen.GenLib Model.Codec Model.Evaluator Model.Showdown Model.Game
+                       Spec.SpecGameInv Spec.SpecSettle
+                       Proofs.C02_Basics Proofs.C02_Cards.
 Import ListNotations.
-Open Scope Z_scope.
-Definition ex_holes : list N := [mask_of_bits [51; 50]%N; mask_of_bits [41; 40]%N].
-(* after Call(1), Check pre-flop the engine and the rule book both await the flop, and a raise is rejected *)
-Theorem C14_chance_instance :
-  match root Standard ex_holes with
-  | Some g0 => match run Standard g0 [Call 1; Check] with
-               | Some g => turn_of g = Chance /\ is_allowed Standard g (Raise 2) = Some false
-               | None => False end
-  | None => False end.
-Proof. vm_compute. split; reflexivity. Qed.
-Print Assumptions C14_chance_instance.
+Open Scope N_scope.
+
+(* ---------- the hypotheses are satisfiable ---------- *)
+Definition ex_holes : list N := [3; 12].
+Definition ex_root : game :=
+  mkGame [mkSeat Betting 98 2 2 3; mkSeat Betting 99 1 1 12] 3 0 0 3.
+Definition ex_preflop_closed : game :=
+  mkGame [mkSeat Betting 98 2 2 3; mkSeat Betting 98 2 2 12] 4 0 0 5.
+
+Example ex_wf_holes : wf_holes Standard ex_holes.
+Proof. exists 3, 12. repeat split; reflexivity. Qed.
+Example ex_wf_holes_short : wf_holes Short [196608; 786432].
+Proof. exists 196608, 786432. repeat split; reflexivity. Qed.
+Example ex_reachable64 : reachable64 Standard ex_holes ex_preflop_closed.
+Proof.
+  exists ex_root, [Call 1%Z; Check]. split; [vm_compute; reflexivity|].
+  split; [repeat constructor | vm_compute; reflexivity].
+Qed.
+Example ex_draw : exists g', apply Standard ex_preflop_closed (Draw 112) = Some g'.
+Proof. eexists. vm_compute. reflexivity. Qed.
+(* a card already dealt is refused *)
+Example ex_draw_refused : apply Standard ex_preflop_closed (Draw 7) = None.
+Proof. vm_compute. reflexivity. Qed.
+
+(* ---------- theorems ---------- *)
+(* full statement (false in the model, see below):
+   forall d hs g, wf_holes d hs -> reachable d hs g -> cards_inv d g *)
+Theorem C14_cards_reachable_partial : forall d hs g, wf_holes d hs -> reachable64 d hs g -> cards_inv d g.
+Proof. exact cards_inv_reachable64. Qed.
+Print Assumptions C14_cards_reachable_partial.
+
+Theorem C14_cards_reachable_false :
+  ~ (forall d hs g, wf_holes d hs -> reachable d hs g -> cards_inv d g).
+Proof. exact cards_inv_reachable_false. Qed.
+Print Assumptions C14_cards_reachable_false.
+
+Theorem C14_reachable64_reachable : forall d hs g, reachable64 d hs g -> reachable d hs g.
+Proof. exact reachable64_reachable. Qed.
+Print Assumptions C14_reachable64_reachable.
+
+Example ex_reachable : reachable Standard ex_holes ex_preflop_closed.
+Proof. exact (C14_reachable64_reachable _ _ _ ex_reachable64). Qed.
+
+Theorem C14_cards_any_reachable : forall d hs g, wf_holes d hs -> reachable d hs g -> cards_inv_any d g.
+Proof. exact card_inv_reachable. Qed.
+Print Assumptions C14_cards_any_reachable.
+
+Theorem C14_draw_fresh : forall d hs g h g', wf_holes d hs -> reachable d hs g ->
+  apply d g (Draw h) = Some g' ->
+  N.land h (fold_left N.lor (map cards (seats g)) (board g)) = 0 /\ board g' = N.lor (board g) h.
+Proof. exact draw_fresh_reachable. Qed.
+Print Assumptions C14_draw_fresh.
